@@ -1,6 +1,7 @@
 import Driver.Util
 import TrimeshVerif.Model.Creation
 import TrimeshVerif.Model.Extrude
+import TrimeshVerif.Model.RevolveGrid
 open Lean Drv TV.Query TV.Creation
 namespace Drv.C15
 
@@ -36,8 +37,18 @@ def handle (j : Json) : Except String Json := do
     let slices ← fld j "slices" jNat
     let nv ← fld j "nverts" jNat
     let keep ← fld j "keep" (jList jBool)
-    pure <| obj [("vol6", ofRat (revolveVol6 prof dirs)), ("formula", ofRat (dirSum dirs * profileSum prof)),
-      ("faces", ofList ofFace (revolveFaces per slices nv (fun i => keep.getD i false)))]
+    -- a partial revolve with caps: the cap triangulation the code appended (first cap only)
+    let cap ← fldD j "cap" (jOpt (jList (fun f => do
+      match f with
+      | Json.arr #[a, b, c] => pure (((← jNat a), (← jNat b), (← jNat c)) : TV.RevolveGrid.Face)
+      | _ => throw "face expected"))) none
+    let capOut := match cap with
+      | none => []
+      | some T => [("cap_ok", ofBool (TV.RevolveGrid.capOk (per - 1) T)),
+                   ("open_raw", ofList ofFace (TV.RevolveGrid.openRaw per slices T)),
+                   ("open_closed", ofBool (TV.RevolveGrid.closedB (TV.RevolveGrid.openSurface per slices T)))]
+    pure <| obj ([("vol6", ofRat (revolveVol6 prof dirs)), ("formula", ofRat (dirSum dirs * profileSum prof)),
+      ("faces", ofList ofFace (revolveFaces per slices nv (fun i => keep.getD i false)))] ++ capOut)
   | "box" =>
     let ext ← fld j "extents" jTriple
     let corners ← fld j "corners" (jList (fun c => do
